@@ -29,6 +29,10 @@ pub struct Recorder {
     pub use_clock: bool,
     pub page_events: Mutex<Vec<String>>,
     pub record: bool,
+    /// page-ownership monitor (main page file only): page -> owner tag at allocation
+    pub owners: Mutex<BTreeMap<u64, &'static str>>,
+    pub foreign_writes: Mutex<Vec<String>>,
+    pub monitor_pages: bool,
 }
 
 impl Recorder {
@@ -43,6 +47,9 @@ impl Recorder {
             use_clock: true,
             page_events: Mutex::new(Vec::new()),
             record: true,
+            owners: Mutex::new(BTreeMap::new()),
+            foreign_writes: Mutex::new(Vec::new()),
+            monitor_pages: false,
         })
     }
     pub fn mark(&self, ev: Ev) {
@@ -60,8 +67,45 @@ fn counted(op: &IoOp) -> bool {
     !matches!(op, IoOp::PageAlloc { .. } | IoOp::PageFree { .. })
 }
 
+impl Recorder {
+    pub fn new_monitor() -> Arc<Self> {
+        let mut r = Arc::try_unwrap(Self::new()).ok().unwrap();
+        r.monitor_pages = true;
+        r.record = false;
+        Arc::new(r)
+    }
+
+    fn monitor(&self, op: &IoOp) {
+        let is_main = |p: &Path| p.extension().is_some_and(|e| e == "ndb");
+        match op {
+            IoOp::PageAlloc { path, page, owner } if is_main(path) => {
+                self.owners.lock().unwrap().insert(*page, owner);
+            }
+            IoOp::PageFree { path, page } if is_main(path) => {
+                self.owners.lock().unwrap().remove(page);
+            }
+            IoOp::Write { path, offset, owner, .. } if is_main(path) => {
+                let page = offset / 8192;
+                if page < 2 {
+                    return;
+                }
+                let owners = self.owners.lock().unwrap();
+                match owners.get(&page) {
+                    Some(o) if o == owner => {}
+                    Some(o) => self.foreign_writes.lock().unwrap().push(format!("page {page} owned by '{o}' written by '{owner}'")),
+                    None => self.foreign_writes.lock().unwrap().push(format!("page {page} not allocated (no owner) written by '{owner}'")),
+                }
+            }
+            _ => {}
+        }
+    }
+}
+
 impl Hooks for Recorder {
     fn io_step(&self, op: IoOp) -> io::Result<()> {
+        if self.monitor_pages {
+            self.monitor(&op);
+        }
         if counted(&op) {
             let k = self.io_count.fetch_add(1, Ordering::SeqCst);
             let mut f = self.fail_at.lock().unwrap();
